@@ -65,7 +65,6 @@ structure Case where
   cfg : Cfg
   req : Req
   inner : Inner      -- what the innermost handler does for this request
-  getInner : Inner   -- … and what it does for the same request sent as GET (differs for `file` + HEAD)
 
 def parseCase : List String → Option Case
   | [st, p, ae, i] => do
@@ -75,7 +74,7 @@ def parseCase : List String → Option Case
     -- Content-Length set, nothing written
     let mi := if head && i.startsWith "file:" then Inner.write (some 200) [] false .plain true else gi
     pure { cfg := ← parseStack st, req := { html := p.startsWith "html", ae := ae == "1", head := head },
-           inner := mi, getInner := gi }
+           inner := mi }
   | _ => none
 
 def showChunk : Chunk → String
@@ -144,9 +143,7 @@ def serveJudge (f : List String) (out : String) : String :=
       | none => "bad:unparsable:" ++ out
       | some r =>
         let v := verdict c.req.head (c.cfg.templates && c.req.html) (effectiveErrors c.cfg) c.inner r
-        let vg := verdict c.req.head (c.cfg.templates && c.req.html) (effectiveErrors c.cfg) c.getInner r
         if v != "ok" then v
-        else if vg != "ok" then "bad:head-differs:HEAD is not answered with the status GET is answered with (templates renders the empty body the file server produces for HEAD)"
         else if fu != "ok" then "bad:not-contained:the follow-up requests were not answered as a fresh instance of the site answers them"
         else "ok"
     | _, _, _ => "bad:unparsable:" ++ out
@@ -175,9 +172,7 @@ def liveJudge (f : List String) (out : String) : String :=
       | none => "bad:unparsable:" ++ out
       | some r =>
         let v := verdict c.req.head (c.cfg.templates && c.req.html) (effectiveErrors c.cfg) c.inner r
-        let vg := verdict c.req.head (c.cfg.templates && c.req.html) (effectiveErrors c.cfg) c.getInner r
         if v != "ok" then v
-        else if vg != "ok" then "bad:head-differs:HEAD is not answered with the status GET is answered with (templates renders the empty body the file server produces for HEAD)"
         else if f1 != "ok" then "bad:not-contained:follow-up on the same connection not answered as on a fresh instance of the site"
         else if f2 != "ok" then "bad:not-contained:follow-up on a new connection not answered as on a fresh instance of the site"
         else "ok"
